@@ -32,8 +32,8 @@ Definition print_events (c : N) : list event :=
   else [].
 
 (* --- ESC sequences --- *)
-(* ESC 7, ESC 8, ESC =, ESC >, ESC M, ESC c *)
-Definition esc_silent : list N := [55; 56; 61; 62; 77; 99].
+(* ESC 7, ESC 8, ESC =, ESC >, ESC M, ESC c, and ESC \ (the string terminator ST) *)
+Definition esc_silent : list N := [55; 56; 61; 62; 77; 99; 92].
 
 Definition esc_events (inter : list N) (b : N) : list event :=
   match inter with
@@ -655,6 +655,7 @@ Proof.
       replace (b =? 55) with false by lia. replace (b =? 56) with false by lia.
       replace (b =? 61) with false by lia. replace (b =? 62) with false by lia.
       replace (b =? 77) with false by lia. replace (b =? 99) with false by lia.
+      replace (b =? 92) with false by lia.
       destruct (b =? 103); reflexivity. }
   split; [exact P|].
   destruct a as [c|b| | | |ps bell|ps inter ig c|inter ig b]; cbn [reported] in H; try discriminate;
